@@ -8,11 +8,16 @@ package run
 //	    derivations := "-" | <parent><kind>,...    stream 0 is the root, derivation j creates stream j
 //	    kind := W WithAdditionalLifecycle(probe j) | K WithLockWhileMaterializing(probe locker j)
 //	            F Filter(even) | M stream.Map(+10) | L Limit(2) | S Skip(1) | P Peek
+//	            C stream.Map(+10, WithConcurrentMapOption(2)): the child's list is a producer-stop guard (no probe)
+//	              followed by the parent's list; its elements come in an unspecified order
 //	    root: r0 NewSimpleStream(f) (nil lifecycle slice), r1 NewSimpleStream(f, open, close) (probe 0),
 //	          r2 NewStream(provider) (probe 0 = the provider)
 //	    observation: "solo <i>:<opened>/<closed>/<elements> ..." — the forest is rebuilt for every i and ONLY stream i is
 //	    materialised — then for every order "; all <i>:<opened>/<closed> ..." — the forest is built once and every
 //	    stream value is materialised in that order.
+//	    <elements>: the exact sequence; sorted when a C lies on the stream's path; "#<count>" when an L or S lies
+//	    below a C on the path (which elements pass is schedule dependent, how many is not).  Ids are read after the
+//	    terminal operation returned (it waits for the goroutines of a concurrent map).
 //
 //	Q <sep|pack> n=<rows> w=<width> caps=<k:m,...> <seq|alt|joinI|joinL|joinF|joinsharedI> | <chain P> | <chain Q> | <chain post>
 //	    chain := "-" | stage.stage...   stage := A<val> append field | S<val>+<val>.. select fields | D drop odd rows
@@ -31,6 +36,7 @@ import (
 	"fmt"
 	"io"
 	"iter"
+	"sort"
 	"strconv"
 	"strings"
 	"time"
@@ -143,7 +149,7 @@ func c17ParseDerivs(s string) ([]c17Deriv, bool) {
 			return nil, false
 		}
 		k := t[len(t)-1]
-		if !strings.ContainsRune("WKFMLSP", rune(k)) {
+		if !strings.ContainsRune("WKFMLSPC", rune(k)) {
 			return nil, false
 		}
 		out = append(out, c17Deriv{p, k})
@@ -194,6 +200,8 @@ func c17BuildForest(root byte, ds []c17Deriv, rec *c17Rec) []stream.Stream[int] 
 			c = p.Skip(1)
 		case 'P':
 			c = p.Peek(func(int) {})
+		case 'C':
+			c = stream.Map(p, func(v int) int { return v + 10 }, stream.WithConcurrentMapOption(2))
 		}
 		all = append(all, c)
 	}
@@ -211,6 +219,36 @@ func c17Ints(l []int) string {
 	return strings.Join(parts, ",")
 }
 
+// how the elements of every stream are compared: 0 exact, 1 sorted, 2 count only (see the header)
+func c17DataModes(ds []c17Deriv) []int {
+	modes := make([]int, len(ds)+1)
+	for j, d := range ds {
+		m := modes[d.parent]
+		switch {
+		case d.kind == 'C':
+			if m < 1 {
+				m = 1
+			}
+		case (d.kind == 'L' || d.kind == 'S') && m >= 1:
+			m = 2
+		}
+		modes[j+1] = m
+	}
+	return modes
+}
+
+func c17FmtData(mode int, data []int) string {
+	switch mode {
+	case 0:
+		return c17Ints(data)
+	case 1:
+		cp := append([]int(nil), data...)
+		sort.Ints(cp)
+		return c17Ints(cp)
+	}
+	return "#" + strconv.Itoa(len(data))
+}
+
 func c17ExecD(text string) string {
 	head, ordText, ok := strings.Cut(text, " | ")
 	if !ok {
@@ -226,6 +264,7 @@ func c17ExecD(text string) string {
 		return "bad-case"
 	}
 	ctx := context.Background()
+	modes := c17DataModes(ds)
 	var sb strings.Builder
 	sb.WriteString("solo")
 	for i := 0; i <= len(ds); i++ {
@@ -236,7 +275,7 @@ func c17ExecD(text string) string {
 			fmt.Fprintf(&sb, " %d:err", i)
 			continue
 		}
-		fmt.Fprintf(&sb, " %d:%s/%s/%s", i, c17Ints(rec.opened), c17Ints(rec.closed), c17Ints(data))
+		fmt.Fprintf(&sb, " %d:%s/%s/%s", i, c17Ints(rec.opened), c17Ints(rec.closed), c17FmtData(modes[i], data))
 	}
 	for _, ord := range strings.Split(ordText, " ; ") {
 		ord = strings.TrimSpace(ord)
@@ -740,8 +779,8 @@ func c17Substitute(c *Ctx, ds []c17Deriv) []c17Deriv {
 			if c.Rng.Intn(3) == 0 {
 				out[i].kind = 'K'
 			}
-		} else {
-			out[i].kind = "FMLSP"[c.Rng.Intn(5)]
+		} else if out[i].kind != 'C' || c.Rng.Bool() {
+			out[i].kind = "FMLSPC"[c.Rng.Intn(6)]
 		}
 	}
 	return out
@@ -749,8 +788,10 @@ func c17Substitute(c *Ctx, ds []c17Deriv) []c17Deriv {
 
 func genC17D(c *Ctx) {
 	maxN := c.Pick(4, 5)
-	// exhaustive: all recursive trees (every parent choice = every creation order) x kinds {W, F}
-	// (thorough, up to 4 derivations: {W, K, F, L}) x roots
+	// exhaustive: all recursive trees (every parent choice = every creation order) x kinds {W, F, C}
+	// (thorough, up to 4 derivations: {W, K, F, L, C}) x roots.  A parent reaches spare capacity (len 3, cap 4) after
+	// two lifecycle derivations below a one-element root (three below r0), so "C under a parent with spare capacity,
+	// observed on the parent / a sibling created before or after" is inside 3..4 derivations.
 	var rec func(ds []c17Deriv, n int, kinds []byte)
 	rec = func(ds []c17Deriv, n int, kinds []byte) {
 		if len(ds) == n {
@@ -768,9 +809,9 @@ func genC17D(c *Ctx) {
 		}
 	}
 	for n := 0; n <= maxN; n++ {
-		kinds := []byte{'W', 'F'}
+		kinds := []byte{'W', 'F', 'C'}
 		if c.Thorough && n <= 4 {
-			kinds = []byte{'W', 'K', 'F', 'L'}
+			kinds = []byte{'W', 'K', 'F', 'L', 'C'}
 		}
 		rec(nil, n, kinds)
 	}
@@ -790,10 +831,54 @@ func genC17D(c *Ctx) {
 					p = j - 1
 				}
 			}
-			k := "WWWWKKFMLSP"[c.Rng.Intn(11)]
+			k := "WWWWKKFMLSPCC"[c.Rng.Intn(13)]
 			ds = append(ds, c17Deriv{p, k})
 		}
 		c17EmitD(c, "012"[c.Rng.Intn(3)], ds)
+	}
+	// directed: a parent whose lifecycle list has 3..8 elements (built one derivation at a time, so Go's growth leaves
+	// spare capacity: 3->cap 4, 4->6, 5->8, 6->10, 7->12, 8->14), below it siblings of EVERY kind in a seeded order
+	// with one or two concurrent-map children among them (siblings created before and after), then a few
+	// derivations anywhere (also below the concurrent-map children)
+	cnt = c.Pick(80, 3000)
+	for i := 0; i < cnt; i++ {
+		root := "012"[c.Rng.Intn(3)]
+		have := 1
+		if root == '0' {
+			have = 0
+		}
+		target := c.Rng.Range(3, 8)
+		var ds []c17Deriv
+		cur := 0
+		for have < target {
+			k := byte('W')
+			switch c.Rng.Intn(6) {
+			case 0:
+				k = 'K'
+			case 1:
+				k = "FMP"[c.Rng.Intn(3)] // shares the list, does not lengthen it
+			}
+			ds = append(ds, c17Deriv{cur, k})
+			cur = len(ds)
+			if k == 'W' || k == 'K' {
+				have++
+			}
+		}
+		sibs := []byte("WKFMLSPC")
+		if c.Rng.Bool() {
+			sibs = append(sibs, 'C')
+		}
+		for j := len(sibs) - 1; j > 0; j-- {
+			x := c.Rng.Intn(j + 1)
+			sibs[j], sibs[x] = sibs[x], sibs[j]
+		}
+		for _, k := range sibs {
+			ds = append(ds, c17Deriv{cur, k})
+		}
+		for x := c.Rng.Intn(4); x > 0; x-- {
+			ds = append(ds, c17Deriv{c.Rng.Intn(len(ds) + 1), "WKFMLSPC"[c.Rng.Intn(8)]})
+		}
+		c17EmitD(c, root, ds)
 	}
 }
 
